@@ -29,11 +29,15 @@ class ScriptedRng:
 
     def __init__(self, seed, specials=(), pspecial=0.0):
         self.r = random.Random(seed); self.lines = []; self.specials = list(specials); self.pspecial = pspecial
-        self.nspecial = 0
+        self.nspecial = 0; self.recent = []; self.hook = None
 
     def random(self):
-        if self.specials and self.r.random() < self.pspecial:
-            p = self.r.choice(self.specials); k = self.r.choice([0, 0, 1, -1])
+        x = self._random(); self.recent.append(x); return x
+
+    def _random(self):
+        sp = list(self.specials) + (self.hook() if self.hook else [])
+        if sp and self.r.random() < self.pspecial:
+            p = self.r.choice(sp); k = self.r.choice([0, 0, 1, -1])
             x = p if k == 0 else math.nextafter(p, 2.0 if k > 0 else -1.0)
             if 0.0 < x < 1.0:
                 self.nspecial += 1
@@ -290,6 +294,48 @@ def state_line(d, ex):
             f"tocc=[{toccs}] hit=[{' '.join(hit)}]")
 
 
+def lkey(l):
+    return l.name() if hasattr(l, 'name') else ('single', getattr(l, '_value', None))
+
+
+def fkey(f):
+    f = getattr(f, '_orig', f)
+    return getattr(f, '__qualname__', None) or getattr(f, 'qn', None) or str(f)
+
+
+def gillespie_oracle(g, rs, cur, t, e):
+    """C02: from the rates of this iteration and the random numbers it consumed, which event must fire and when
+    (exact: rates and random numbers are dyadic; a verdict within rounding distance of a boundary is withheld)"""
+    from fractions import Fraction as F
+    tr = g['tr']
+    for (l, r, f, nm) in tr:
+        pass
+    a = 0.0
+    for (_, r, _, _) in tr: a += r
+    if a == 0.0 or not rs: return None
+    r1 = rs[0]
+    want_t = g['t'] + (1.0 / a) * math.log(1.0 / r1)
+    if t != want_t:
+        return f"stochastic event fired at {t}; loop time {g['t']} + ln(1/r1)/a = {want_t} (a={a}, r1={r1})"
+    idx = 0
+    if len(tr) > 1:
+        if len(rs) < 2: return None
+        xc = F(rs[1]) * F(a); cum = F(0); idx = len(tr) - 1
+        for i, (_, r, _, _) in enumerate(tr):
+            if cum + F(r) > xc: idx = i; break
+            cum += F(r)
+        bounds = [abs(xc - sum((F(x[1]) for x in tr[:i]), F(0))) for i in range(len(tr) + 1)]
+        if min(bounds) < F(a) / 10**12: return None
+    (l, r, f, nm) = tr[idx]
+    if r <= 0: return f"event {nm} has rate {r} but was selectable (r2*a={float(xc) if len(tr) > 1 else None})"
+    if f is not cur['ef']:
+        return (f"rates {[x[1] for x in tr]}, r2={rs[1] if len(rs) > 1 else None}: the event with cumulative interval containing r2*a is "
+                f"#{idx} ({nm}) but {getattr(cur['ef'], '__qualname__', cur['ef'])} fired")
+    if cur['locus'] is not None and cur['locus'] is not l and type(l).__name__ != 'SingletonLocus':
+        return f"event #{idx} was selected on locus {l.name()} but fired on another locus"
+    return None
+
+
 def is_member(l, e):
     """is `e` an element of the locus the event was registered on, judged on the tracked set itself
     (a SingletonLocus stands for one element of the model's S-I locus)"""
@@ -365,11 +411,49 @@ def run_case(case):
             info['events'] += 1; info['posted'] += 1 if cur['posted'] else 0; info['handlers'].add(key)
             if info['events'] > case.get('maxevents', 400):
                 raise CaseTooBig()
+            if case['dyn'] == 'sto' and not cur['posted'] and st.get('gil') and not info['oracle']:
+                r = gillespie_oracle(st['gil'], sr.recent[st['gil']['mark']:], cur, t, e)
+                if r: info['oracle'].append(('gillespie', r))
             for f in case.get('oracles', ()):
                 r = f(self, ex, cur, t, p, name, e)
                 if r: info['oracle'].append(r)
             exp.append(f"EV own={bits(cur['own'])} h={bits(cur['h'])} clock={bits(cur['clock'])} tap={bits(t)} "
                        f"{'P' if cur['posted'] else 'S'} {key} {es} log=[{' '.join(log)}] | " + state_line(self, ex))
+
+        def eventRateDistribution(self, t):
+            tr = super().eventRateDistribution(t)
+            st['gil'] = dict(t=t, tr=[(l, r, getattr(f, '_orig', f), nm) for (l, r, f, nm) in tr], mark=len(sr.recent))
+            return tr
+
+        def allEventsInTimestep(self, t):
+            """C06 oracle: recompute the tranche from the loci at the start of the step and the random numbers consumed"""
+            per = [(l, p, getattr(f, '_orig', f), nm, list(l)) for (l, p, f, nm) in self.perElementEventDistribution(t)]
+            fix = [(l, p, getattr(f, '_orig', f), nm, len(l)) for (l, p, f, nm) in self.fixedRateEventDistribution(t)]
+            mark = len(sr.recent); imark = len(sr.lines)
+            evs = super().allEventsInTimestep(t)
+            rs = sr.recent[mark:]
+            want = []; k = 0; ok = True
+            for (l, p, f, nm, els) in per:
+                if len(els) > 0 and p > 0.0:
+                    for e in els:
+                        if k >= len(rs): ok = False; break
+                        if rs[k] <= p: want.append((lkey(l), e, fkey(f)))
+                        k += 1
+            nfix = 0
+            for (l, p, f, nm, n) in fix:
+                if n > 0 and p > 0.0:
+                    if k >= len(rs): ok = False; break
+                    if rs[k] <= p: want.append((lkey(l), None, fkey(f))); nfix += 1
+                    k += 1
+            got = [(lkey(l), e, fkey(getattr(f, '_orig', f))) for (l, e, f, nm) in evs]
+            nper = len(want) - nfix
+            if not ok or k != len(rs):
+                info['oracle'].append(('sync', f"timestep {t}: {len(rs)} random numbers consumed, {k} independent trials expected (one per element per event, one per fixed-rate event)"))
+            elif got[:nper] != want[:nper] or [(a, c) for (a, b, c) in got[nper:]] != [(a, c) for (a, b, c) in want[nper:]]:
+                info['oracle'].append(('sync', f"timestep {t}: chosen {[(e, f) for (_, e, f) in got]} but the trials r<=p select {[(e, f) for (_, e, f) in want]}"))
+            if t != float(int(t)) or t < 1.0:
+                info['oracle'].append(('sync', f"timestep time {t} is not a positive whole number"))
+            return evs
 
         def postEvent(self, t, p, e, ef, name=None):
             cell = {}
@@ -409,6 +493,17 @@ def run_case(case):
             return r
 
     d = D(top, Gen(case['nodes'], case['edges']))
+
+    def boundary():
+        g = st.get('gil')
+        if not g or case['dyn'] != 'sto': return []
+        a = sum(r for (_, r, _, _) in g['tr'])
+        if a <= 0: return []
+        out = []; c = 0.0
+        for (_, r, _, _) in g['tr'][:-1]:
+            c += r; out.append(c / a)
+        return [x for x in out if 0.0 < x < 1.0]
+    sr.hook = boundary
     orig_build = top.build
 
     def build(params):
